@@ -836,7 +836,7 @@ def run_text_level(ck, pr):
         return
     from .c17_lib import py_model_kind, py_impl_kind
     rng = ck.rng
-    NAMES = ["a", "x1", "_y", "b_c", "let", "true", "null", "false", "into", "case", "func", "module", "prql", "type", "internal", "import", "and", "or", "in",
+    NAMES = ["a", "x1", "_y", "b_c", "let", "true", "null", "false", "into", "case", "func", "module", "prql", "type", "internal", "import", "enum", "and", "or", "in",
              "A", "aZ9", "_", "__", "f64", "e1", "x_", "b c", "1a", "a-b", "", "é", "a.b", "r", "s", "f", "r1", "select", "from"]
     CH = [chr(c) for c in range(32, 127)]
     INTS = [0, 1, 7, 42, 1000, 2 ** 63 - 1, 2 ** 63, -1, 10 ** 18, 123456789]
